@@ -231,3 +231,117 @@ Proof.
 Qed.
 
 End TinyS.
+
+(* ====================================================================== a choice group inside a sequence *)
+Module TinyC.
+(* 0 ROOT (splittable, sequence: A, (B | D), C)   1 A   2 B   3 C   4 D     datatype 7 = the choice group (B | D)
+   The master uses the alternative B: file 0 has A and C, file 1 has A and B. *)
+Definition nROOT := 0. Definition nA := 1. Definition nB := 2. Definition nC := 3. Definition nD := 4.
+
+Definition tinyC : tables := {|
+  T_elements := fun i => match i with
+    | 0 => Some (TinyS.mkE 0 0 1 3) | 1 => Some (TinyS.mkE 1 1 1 0) | 2 => Some (TinyS.mkE 2 2 1 0)
+    | 3 => Some (TinyS.mkE 3 3 1 0) | 4 => Some (TinyS.mkE 4 4 1 0) | _ => None end;
+  n_elements := 5;
+  T_subelements := fun i => match i with
+    | 0 => Some (0, 1) | 1 => Some (1, 7) | 2 => Some (0, 3)    (* ROOT: A (group 7) C *)
+    | 3 => Some (0, 2) | 4 => Some (0, 4)                       (* group 7 (choice): B | D *)
+    | _ => None end;
+  n_subelements := 5;
+  T_attributes := fun _ => None;
+  n_attributes := 0;
+  T_version_info := fun _ => Some 3;
+  n_version_info := 200;
+  T_datatypes := fun i => match i with
+    | 0 => Some (TinyS.mkD 0 3 0 MSequence)
+    | 1 | 2 | 3 | 4 => Some (TinyS.mkD 5 5 0 MSequence)
+    | 7 => Some (TinyS.mkD 3 5 0 MChoice)
+    | _ => None end;
+  n_datatypes := 8;
+  T_ref_items := fun _ => None;
+  n_ref_items := 0;
+  T_cdata := fun _ => None;
+  n_cdata := 0;
+  reference_type_idx := 99; autosar_element := 0; name_short_name := 50; attr_dest := 0
+|}.
+Definition LATEST := 2.
+Definition DEFREF := 98.
+
+Definition mplain (name : N) (fs : list N) (kids : list mtree) : mtree := MNode name (name, name) [] (map inl kids) None fs.
+Definition master : mtree := mplain nROOT [0; 1] [mplain nA [0; 1] []; mplain nB [1] []; mplain nC [0] []].
+
+Definition new_world : world :=
+  match new_model tinyC [] (mkWorld (fun _ => None) 0 [] []) with Val (_, w) => w | _ => mkWorld (fun _ => None) 0 [] [] end.
+Definition load_tree (filename : string) (e : Parser.etree) : W N :=
+  load_parsed tinyC LATEST DEFREF 0 (BS filename) e (pstate_of tinyC 2 e).
+Fixpoint load_all (l : list (string * Parser.etree)) (w : world) : res (list (out N) * world) :=
+  match l with
+  | [] => Val ([], w)
+  | (nm, e) :: r =>
+    match load_tree nm e w with
+    | Val (o, w') => match load_all r w' with Val (os, w'') => Val (o :: os, w'') | Pan s => Pan s | Fuel => Fuel end
+    | Pan s => Pan s
+    | Fuel => Fuel
+    end
+  end.
+Definition final (l : list (string * Parser.etree)) : option htree :=
+  match load_all l new_world with Val (_, w) => abs_model w 0 | _ => None end.
+Definition file0 : Parser.etree := match project 0 master with Some e => e | None => TinyS.eplain 0 [] end.
+Definition file1 : Parser.etree := match project 1 master with Some e => e | None => TinyS.eplain 0 [] end.
+
+(* the index of B goes through the group: [1; 0] *)
+Example idx_B : find_sub_element tinyC (0, 0) nB 2 = Val (Some ((2, 2), [1; 0])).
+Proof. vm_compute. reflexivity. Qed.
+
+Example merge_01 : final [("f0", file0); ("f1", file1)] = Some (expected None master).
+Proof. vm_compute. reflexivity. Qed.
+Definition master_10 : mtree := mplain nROOT [0; 1] [mplain nA [0; 1] []; mplain nB [0] []; mplain nC [1] []].
+Example merge_10 : final [("f1", file1); ("f0", file0)] = Some (expected None master_10).
+Proof. vm_compute. reflexivity. Qed.
+
+Local Notation G := (Good tinyC DEFREF 2).
+Lemma good_empty name fs :
+  sset fs -> fs <> [] -> (exists sp, splittable_in tinyC (name, name) 2 = Val sp) -> G (mplain name fs []).
+Proof.
+  intros Hs Hne Hsp. apply Good_unfold. split; [exact Hs|]. split; [exact Hne|]. split; [|intros c []].
+  split; [intros c []|]. split; [exact Hsp|]. split; [constructor|]. split; [left; reflexivity|].
+  exists (fun _ => mkCore 0 false None None []). split; [intros c []|]. split; [intros c1 c2 []|intros c1 c2 []].
+Qed.
+
+Definition root_idx (c : mtree) : list N := match m_name c with 1 => [0] | 2 => [1; 0] | 3 => [2] | _ => [] end.
+Definition root_core (c : mtree) : core := mkCore (m_name c) false None None (root_idx c).
+
+Theorem master_good : G master.
+Proof.
+  unfold master, mplain. cbn [map]. apply Good_unfold.
+  split; [apply TinyS.s01|]. split; [discriminate|]. split.
+  - split.
+    { intros c [<-|[<-|[<-|[]]]]; cbn; intros x Hx; cbn in *; intuition. }
+    split; [exists true; reflexivity|].
+    split.
+    { constructor; [intros [H|[H|[]]]; discriminate|]. constructor; [intros [H|[]]; discriminate|].
+      constructor; [intros []|constructor]. }
+    split.
+    + right. split; [reflexivity|]. right. right. split; [intros [H _]; discriminate|]. split; [reflexivity|].
+      split; [reflexivity|]. exists root_idx. split; [|split].
+      * intros c [<-|[<-|[<-|[]]]]; eexists; reflexivity.
+      * intros c x [<-|[<-|[<-|[]]]] [<-|[<-|[<-|[]]]] Hne; try (exfalso; apply Hne; reflexivity);
+          exists 0, (TinyS.mkD 0 3 0 MSequence); repeat split; reflexivity.
+      * intros l1 c l2 E.
+        destruct l1 as [|a1 [|a2 [|a3 l1]]]; cbn [app] in E.
+        -- injection E as <- <-. split; [intros x []|]. intros x [<-|[<-|[]]]; reflexivity.
+        -- injection E as <- <- <-. split; [intros x [<-|[]]; reflexivity|]. intros x [<-|[]]; reflexivity.
+        -- injection E as <- <- <- <-. split; [intros x [<-|[<-|[]]]; reflexivity|intros x []].
+        -- exfalso. injection E as _ _ _ E. destruct l1; discriminate.
+    + exists root_core. split; [|split].
+      * intros c [<-|[<-|[<-|[]]]]; unfold root_core, root_idx, mplain; cbn [m_name map].
+        -- apply keystable_unnamed with (sub := (1, 1)); [reflexivity|reflexivity|intros c []].
+        -- apply keystable_unnamed with (sub := (2, 2)); [reflexivity|reflexivity|intros c []].
+        -- apply keystable_unnamed with (sub := (3, 3)); [reflexivity|reflexivity|intros c []].
+      * intros c1 c2 [<-|[<-|[<-|[]]]] [<-|[<-|[<-|[]]]]; vm_compute; intros H; try reflexivity; discriminate.
+      * intros c1 c2 [<-|[<-|[<-|[]]]] [<-|[<-|[<-|[]]]]; vm_compute; intros H; try reflexivity; discriminate.
+  - intros c [<-|[<-|[<-|[]]]]; apply good_empty; try discriminate; try apply TinyS.s01; try apply TinyS.s0; try apply TinyS.s1;
+      exists false; reflexivity.
+Qed.
+
+End TinyC.
